@@ -681,6 +681,7 @@ class AffInterp:
     _idx_policy = None
     _idx_used = None
     _idx_path = None
+    num_islinear = 0          # linearity of the reconstruction object of the abstract run
 
     def _idx_choice(self, cond, st, func):
         if self._idx_used is None:
@@ -844,7 +845,7 @@ class AffInterp:
         ci = self.p.resolve_class_expr(node, mod)
         if ci is not None:
             return ClassRef(ci)
-        if node.id in ("hasattr", "len", "range", "enumerate", "zip", "min", "max", "print", "isinstance", "abs"):
+        if node.id in ("hasattr", "getattr", "len", "range", "enumerate", "zip", "min", "max", "print", "isinstance", "abs"):
             return NpRef("builtin." + node.id)
         if node.id in mod.imports or node.id in mod.from_imports:
             return Opaque(node.id)
@@ -897,6 +898,8 @@ class AffInterp:
         if isinstance(o, list) and a == "append":
             return o.append
         if isinstance(o, Opaque):
+            if (o.name + "." + a).endswith("num.islinear"):
+                return self.num_islinear       # linearity declared by the reconstruction object (set per run)
             return Opaque(o.name + "." + a)
         if isinstance(o, dict) and a in ("keys", "items", "values", "get"):
             return getattr(o, a)
@@ -1101,6 +1104,15 @@ class AffInterp:
                         self.effects["carried"].append((a, "%s:%d (hasattr)" % (func.qualname, node.lineno)))
                     return a in o.attrs or self.p.class_attr(o.cls, a)[1] is not None
                 raise AnalysisError("hasattr on non-self")
+            if base == "getattr" and len(args) in (2, 3) and isinstance(args[1], str):
+                o = args[0]
+                if isinstance(o, Opaque):
+                    if (o.name + "." + args[1]).endswith("num.islinear"):
+                        return self.num_islinear
+                    return Opaque(o.name + "." + args[1])
+                if o is None and len(args) == 3:
+                    return args[2]
+                raise AnalysisError("%s:%d getattr on %s" % (func.qualname, ln, type(o).__name__))
             if base == "len":
                 return len(args[0])
             if base == "range":
@@ -1256,6 +1268,7 @@ def run_jacobian(project, cls, islinear=0):
     ai.inline_jacobian = True
     f = AField.initial()
     f.model.islinear = islinear
+    ai.num_islinear = islinear      # 'linear' runs: model and reconstruction both linear
     func = project.resolve(cls, "calc_jacobian")
     if func is None:
         raise AnalysisError("no calc_jacobian for %s" % cls.qualname)
@@ -1280,6 +1293,7 @@ def step_effects(project, cls, islinear, nsteps=None):
     for n in range(nsteps):
         f = AField.initial()
         f.model.islinear = islinear
+        ai.num_islinear = islinear
         ai.effects = {"written": set(), "carried": [], "writes": []}
         ai.step(f, dt_arg())
         eff = ai.effects
